@@ -21,6 +21,14 @@ CHECKS = {
         note=PAR_NOTE,
         design_ref="1.1, 1.2, 2/C01",
     ),
+    "C03": dict(
+        category="exploration",
+        engine="E4-enumerators",
+        technique="bounded-exhaustive enumeration of object universe x compress argument x protocol x target x renaming, structural-equality oracle with sharing/cycle preservation",
+        text="Every object of a generated universe (boundary-sized strings/bytes around the 8 KiB block, 64 KiB frame and 1 MiB buffer sizes, user classes, shared and recursive references, the typed value universe) is dumped by the real joblib.dump under every compress argument, protocol and target kind and reloaded by path, file object, memory buffer and under every other file extension; results must be structurally equal with the same sharing pattern.",
+        note="Python's own pickle decides picklability per protocol (objects it rejects are outside the domain). lz4 is not installed; numpy arrays are C19's. Large objects get a reduced product (every compress argument on one target, every target on four compress arguments).",
+        design_ref="2/C03",
+    ),
     "C04": dict(
         category="model_checking",
         engine="E1-pysched + E2-virtual-backend",
